@@ -19,4 +19,49 @@ def run(ctx: Ctx) -> None:
 
 
 def extra(ctx: Ctx) -> None:
-    pass
+    """Vertices.tla: the insertion state machine is model-checked against the declarative statement for all insertion
+    orders / numberings / patch placements of two- and three-block assemblies; every finished configuration TLC emits
+    is (sampled and) replayed through Mesh.assemble()/write() and judged by Render.tla like the random programs."""
+    import random
+
+    from ..tlc import run_tlc
+    from .grading import cfg_text
+
+    rng = random.Random(ctx.seed + 5)
+    plans = [("2", "{30}", "1", "3")] if ctx.tier == "quick" else [("2", "{1, 30}", "2", "3"), ("3", "{1}", "1", "2")]
+    for nblocks, rots, maxp, merged in plans:
+        consts = {"NBlocks": nblocks, "RotChoice": rots, "MaxPatched": maxp, "MergedIdx": merged}
+        text = cfg_text("Spec", consts, ["Positions", "Shared", "Distinct", "MasterSlave", "Dense", "OrderFree"], constraints=["Emit"])
+        res = run_tlc("Vertices", "vertices.cfg", cfg_text=text, workers=4, timeout=3000)
+        ctx.add_tlc(res)
+        cfgs = [r for r in res.records if "pts" in r]
+        rng.shuffle(cfgs)
+        progs, recs, geos = [], [], {}
+        for k, cfg in enumerate(cfgs[: (120 if ctx.tier == "quick" else 1500)]):
+            nb = len(cfg["pts"])
+            ops = []
+            for b in cfg["order"]:
+                ops.append({"pts0": list(cfg["pts"][b - 1]), "pts": [], "fops": {"bottom": [], "top": []}, "zone": "",
+                            "patch": list(cfg["patch"][b - 1]), "sproj": [""] * 6, "sproj_flags": [[False, False] for _ in range(6)],
+                            "pproj": [[] for _ in range(8)], "pproj_calls": [[] for _ in range(8)], "edges": [], "deleted": False})
+            prog = {"id": k + 1, "focus": "vertices-exhaustive", "ops": ops, "merged": [list(p) for p in cfg["merged"]], "dflt": [], "mods": [],
+                    "pkind": [], "psettings": [], "geom": [], "settings": [], "exp_settings": [["scale", "1"]],
+                    "unique_face_labels": True, "builtin": False, "count": 2}
+            geo = render.lattice_geometry(rng, general=rng.random() < 0.5)
+            rec = render.execute(prog, geo, ctx, with_vtk=False)
+            ctx.evaluated(f"vx:{cfg['pts']}:{cfg['patch']}:{cfg['order']}")
+            if "error" in rec:
+                ctx.violation(f"program-fails:{rec['error']}", f"exhaustive vertices configuration could not be written: {rec['msg']}", {"cfg": cfg})
+                continue
+            if len(rec["file"]["vpos"]) != cfg["nverts"]:
+                ctx.violation("vertices:count-differs-from-model", f"{len(rec['file']['vpos'])} vertices written, the insertion model has {cfg['nverts']}", {"cfg": cfg})
+            progs.append(prog)
+            recs.append(rec)
+        if recs:
+            verdicts = render.judge(ctx, recs)
+            for prog, rec in zip(progs, recs):
+                ctx.validated()
+                for c in verdicts[prog["id"]]:
+                    if render.CLAUSE_PROP[c] == "C05" or c == "IndicesOK":
+                        ctx.violation(f"render:{c}", f"exhaustive vertices configuration {prog['id']}: Render.tla clause {c} rejected the written file",
+                                      {"prog": prog, "file": rec["file"]})
